@@ -85,6 +85,9 @@ let timed (f : unit -> 'a) (dflt : 'a) : 'a =
 let pool : (int, obj) Hashtbl.t = Hashtbl.create 16
 let get id = try Hashtbl.find pool id with Not_found -> raise (Syntax "unknown object")
 
+(* untrusted generator hints printed by the harness for the current operation (validated before use) *)
+let cur_hints : gen list list ref = ref []
+
 let gens_hint o = match o.gens with Some g -> g | None -> raise (Skip "no validated generator hint")
 
 let single c = sys_of_cons [c]
@@ -195,6 +198,26 @@ and ref_op_raw c : int * obj * (unit -> bool option) option =
          when every inexpressible congruence is a contradiction the implementation is free to ignore, hence: *)
       if !proper then raise (Relational (false_sys, x.s));
       id, upd s', none
+  | "poly_difference_assign" | "difference_assign" ->
+      (* theorems C02_difference_*: the pieces x /\ not c cover the difference exactly; a hint is used for a
+         non-empty piece only after it has been shown (equiv_sys) to generate exactly that piece *)
+      let y = get (nexti c) in
+      if y.dim <> n || y.topo <> x.topo then raise (Skip "incompatible operands");
+      let dn = nat (n + 1) in
+      let wf g = List.length g.gcoefs = n && (match g.gk with GPoint | GClosure -> (match g.gdiv with Zpos _ -> true | _ -> false) | _ -> true) in
+      let hints = List.filter (fun g -> has_point g && List.for_all wf g) !cur_hints in
+      let used = List.filter_map (fun piece ->
+        match nonempty_sys dn piece with
+        | None -> raise (Skip "undecided emptiness of a piece")
+        | Some false -> None
+        | Some true ->
+          (match List.find_opt (fun g -> equiv_sys (nat (n + List.length g + 1)) (cons_of_gens (nat n) g) piece = Some true) hints with
+           | Some g -> Some g
+           | None -> raise (Skip "no validated generator hint for a piece"))) (diff_pieces x.s y.s) in
+      if used = [] then id, upd false_sys, none
+      else
+        let h = cons_of_gens (nat n) (List.concat used) in
+        id, upd (if x.topo = "C" then relax h else h), none
   | "concatenate_assign" -> let y = get (nexti c) in id, { x with s = concatenate (nat n) x.s y.s; dim = n + y.dim; gens = None }, none
   | "topological_closure_assign" -> id, upd (closure_of x), none
   | "affine_image" | "affine_preimage" ->
@@ -383,7 +406,7 @@ let () =
             | ("new" | "copy" | "twin") :: _ -> (match expect_res () with `Ok -> ignore (rdo ()) | `Exn _ -> ())
             | "op" :: _ :: name :: _ ->
                 ignore (expect_res ());
-                let rec eat () = match rdo () with Some l when (match split l with ("ret" | "tok") :: _ -> true | _ -> false) -> eat () | _ -> () in eat ()
+                let rec eat () = match rdo () with Some l when (match split l with ("ret" | "tok" | "hint") :: _ -> true | _ -> false) -> eat () | _ -> () in eat ()
             | "stall" :: _ -> let rec eat () = match rdo () with Some "endst" | None -> () | _ -> eat () in eat ()
             | _ -> ignore (rdo ()))
        | "new" :: rest ->
@@ -427,6 +450,19 @@ let () =
            let r = expect_res () in
            (* optional ret/tok line *)
            let stl = ref (match rdo () with Some l -> l | None -> raise (Syntax "eof")) in
+           cur_hints := [];
+           let rec hints () = match split !stl with
+             | "hint" :: "gens" :: rest' ->
+                 (try let cc = { t = rest' } in
+                      let k = nexti cc in
+                      let toks = Array.of_list cc.t in
+                      let w = if k = 0 then 0 else Array.length toks / k in
+                      let dim = w - 2 in
+                      cur_hints := !cur_hints @ [ read_gens { t = rest' } dim ]
+                  with _ -> ());
+                 stl := (match rdo () with Some l -> l | None -> raise (Syntax "eof")); hints ()
+             | _ -> () in
+           hints ();
            let ret = ref None in
            (match split !stl with
             | ("ret" | "tok") :: v :: _ -> ret := Some v; stl := (match rdo () with Some l -> l | None -> raise (Syntax "eof"))
